@@ -49,10 +49,57 @@ class ScriptedRNG(np.random.RandomState):
         return (low + np.array([self._decide(np.full(n, 1.0 / n)) for _ in range(k)])).reshape(size)
 
     def random(self, size=None):
-        raise NotImplementedError("continuous draws are scripted by the channel stand-in (interval scripts), not here")
+        """a uniform draw used only through subtraction of weights and comparison with constants (Kraus sampling): returned
+        lazily; each comparison that the interval of still-possible values does not settle becomes a scripted decision"""
+        if size is not None:
+            raise NotImplementedError("vector of continuous draws")
+        return LazyUniform(self, [0.0, 1.0], 0.0)
 
     random_sample = random
     rand = random
+
+
+class LazyUniform:
+    """u - off for a uniform u whose value is only known to lie in cell = [lo, hi)"""
+
+    def __init__(self, rng, cell, off):
+        self.rng, self.cell, self.off = rng, cell, off
+
+    def __sub__(self, w):
+        return LazyUniform(self.rng, self.cell, self.off + float(w))
+
+    __isub__ = __sub__
+
+    def __add__(self, w):
+        return LazyUniform(self.rng, self.cell, self.off - float(w))
+
+    def _below(self, c):
+        """u - off < c  <=>  u < off + c"""
+        t = self.off + float(c)
+        lo, hi = self.cell
+        if t <= lo:
+            return False
+        if t >= hi:
+            return True
+        pr = (t - lo) / (hi - lo)
+        k = self.rng._decide([pr, 1 - pr])
+        if k == 0:
+            self.cell[1] = t
+            return True
+        self.cell[0] = t
+        return False
+
+    def __lt__(self, c):
+        return self._below(c)
+
+    def __ge__(self, c):
+        return not self._below(c)
+
+    def __le__(self, c):
+        return self._below(c)  # equality has probability zero
+
+    def __gt__(self, c):
+        return not self._below(c)
 
 
 def enumerate_branches(run, max_branches=512):
